@@ -46,7 +46,7 @@ fn inv(s: BuilderState) -> bool {
         && (!s.complete_128 || h == 128)
 }
 
-// @h c15_builder_push_leaf timeout=1500 mem=8
+// @h c15_builder_push_leaf timeout=3000 mem=16 tier=thorough
 #[cfg_attr(kani, kani::proof)]
 #[cfg_attr(kani, kani::unwind(131))]
 pub fn c15_builder_push_leaf() {
